@@ -10,7 +10,8 @@
 (*   Encode   only reads the message and returns a fresh store (knob       *)
 (*            EncodeFresh); the message must not reference it.             *)
 (*   Protect  replaces the message's payload list and header bookkeeping   *)
-(*            only; the caller's original payload objects stay intact      *)
+(*            only; the caller's original payload objects AND the storage  *)
+(*            of the container the message was built from stay intact      *)
 (*            (knob ProtectKeepsPayloads).                                 *)
 (* The histories TLC explores here are printed by Gen_Heap and replayed    *)
 (* on real buffers and messages.                                           *)
